@@ -157,7 +157,9 @@ class _ExecutorFlags:
         with self.shutdown_lock:
             self.shutdown = True
             if kill_workers is not None:
-                self.kill_workers = kill_workers
+                # A request to kill the workers is never withdrawn by a later
+                # (possibly concurrent) graceful shutdown request.
+                self.kill_workers = self.kill_workers or kill_workers
 
     def flag_as_broken(self, broken):
         with self.shutdown_lock:
